@@ -6,7 +6,7 @@ From Coq Require Import List NArith Lia Bool Arith.
 From FFS Require Import WsClient.Model WsClient.Spec WsClient.ProofsHttp WsClient.ProofsWsBase
   WsClient.ProofsWsPairing WsClient.ProofsWsReconnect WsClient.ProofsWsResub WsClient.ProofsWsRouting
   WsClient.ProofsHttpPairing WsClient.ProofsWsResubExact
-  WsClient.ProofsWsRoutingGen WsClient.ProofsWsRoutingGenThm.
+  WsClient.ProofsWsRoutingGen WsClient.ProofsWsRoutingGenThm WsClient.ProofsWsReferee.
 Import ListNotations.
 
 (* 1. HTTP: with a limit configured, the number of requests outstanding at the backend never exceeds
@@ -206,8 +206,9 @@ Proof. vm_compute. reflexivity. Qed.
 
 (* 6. WebSocket: per reconnect each configured subscription is re-requested exactly once.  PARTIAL:
       proved for event sequences in which no reconnect begins while a Subscribe() call is between
-      addConfiguredSub and the completion of its own send (ghost flag w_substraddle), and no
-      websocket send fails inside handleReconnect.  [sends_since_clear s] counts the eth_subscribe
+      addConfiguredSub and the completion of its own send (ghost flag w_substraddle), and handleReconnect
+      never gives up ([no_rc_abort]: no websocket send fails inside it, no re-request fails to be built -
+      [rc_gives_up], widened with the alphabet, see R8).  [sends_since_clear s] counts the eth_subscribe
       frames sent for s since the last reconnect began, [todo] is what handleReconnect still has on
       its list.  The full statement is false of the faithful model: C18_ws_resubscribe_once_refuted. *)
 Theorem C18_ws_resubscribe_once_partial :
@@ -356,7 +357,7 @@ Example C18_ws_routing_nonvacuous :
               EFrame (FReply (Some 3%N) false (Some 6%N)); ERAddActive;
               EUnsubRemove 0 9; ECallReg 9; ECallSend 9 true;
               EFrame (FReply (Some 5%N) false None); ERDeliver; ECallRecv 9; ECallRemove 9;
-              EUnsubAfterCall 0; EUnsubClose 0;
+              EUnsubAfterCall 0 true; EUnsubClose 0;
               EFrame (FNotif (Some 6%N) 71%N);
               EFrame (FNotif (Some 5%N) 72%N); ERNotifySend] winit with
   | Some w => negb (w_straddle w) && negb (w_substraddle w) && negb (w_panic w) &&
@@ -410,3 +411,200 @@ Theorem C18_source_constants :
   Gen.Consts.rpcbackend_RPCCodeInternalError = BinInt.Z.opp (BinInt.Z.of_N WsClient.Model.codeInternal).
 Proof. vm_compute. reflexivity. Qed.
 Print Assumptions C18_source_constants.
+
+(* ===================== answers to the referee's review (design/reviews/C18.md) ===================== *)
+
+(* R1 (review 4 / 5a). Unsubscribe decodes the result of its eth_unsubscribe into a Go bool (waitResponse,
+      wsbackend.go:411-415).  The model's step [EUnsubAfterCall s dec] carries the outcome of that decoding: once
+      the call has returned a non-error reply, "decoding failed" is always possible and ends Unsubscribe with an
+      error WITHOUT closing the channel (LUnsubFail, UDone false); "decoded" is enabled only when the result is not
+      a non-empty JSON string, and only then does Unsubscribe go on to close the channel. *)
+Theorem C18_ws_unsubscribe_decode_step :
+  forall w s k i f res,
+    w_upc w s = UCall k -> w_cpc w k = CDone i (COk f res) ->
+    wstep w (EUnsubAfterCall s false) = Some (add_log (set_upc w s (UDone false)) (LUnsubFail s)) /\
+    wstep w (EUnsubAfterCall s true) = match res with Some _ => None | None => Some (set_upc w s UClosing) end.
+Proof. exact ws_unsub_decode_step. Qed.
+Print Assumptions C18_ws_unsubscribe_decode_step.
+
+(* R2. "To none after it is unsubscribed", for EVERY way Unsubscribe can end (nil; the backend's error; a cancelled
+      context; the reconnect error; the ParseError of R1, after which the channel stays open): once Unsubscribe s
+      has begun (removeSubscription has run: w_upc <> UNew) and the receive loop is not holding a notification for
+      s ([off_loop]), then in every continuation the notifications handed to s ([notifs_to s], read off the log)
+      are exactly those handed to it before, s owns no server id, and the receive loop never picks s again.
+      Same two guards as 7b (they are about the whole history evs1 ++ evs2). *)
+Theorem C18_ws_none_after_unsubscribe_begun :
+  forall evs1 w1 evs2 w2 s,
+    wrun evs1 winit = Some w1 -> wrun evs2 w1 = Some w2 ->
+    notif_straddle (evs1 ++ evs2) winit = false -> w_substraddle w2 = false ->
+    w_upc w1 s <> UNew -> off_loop w1 s ->
+    notifs_to s (w_log w2) = notifs_to s (w_log w1) /\ owns_nothing (w_act w2) s /\ off_loop w2 s /\
+    w_upc w2 s <> UNew /\ (w_upc w1 s = UDone false -> w_upc w2 s = UDone false /\ s_closed (w_sub w2 s) = false).
+Proof. exact ws_none_after_unsub_begun. Qed.
+Print Assumptions C18_ws_none_after_unsubscribe_begun.
+
+(* R3. ... and the receive loop IS off s as soon as the eth_unsubscribe of s has been answered by a non-error frame
+      (the reply came through the same sequential receive loop, and s lost its routing entry before the request
+      was sent) *)
+Theorem C18_ws_answered_unsubscribe_off_loop :
+  forall evs w s k,
+    wrun evs winit = Some w -> notif_straddle evs winit = false -> w_substraddle w = false ->
+    w_upc w s = UCall k -> cpc_succ (w_cpc w k) = true -> off_loop w s /\ owns_nothing (w_act w) s.
+Proof. exact ws_answered_unsub_off_loop. Qed.
+Print Assumptions C18_ws_answered_unsubscribe_off_loop.
+
+(* R4. the ParseError exit put together: Unsubscribe returns the error, the notifications channel is NOT closed,
+      and in every continuation no notification reaches s (the clause holds although Unsubscribe "failed") *)
+Theorem C18_ws_none_after_undecodable_unsubscribe :
+  forall evs1 w1 s k i f res w1' evs2 w2,
+    wrun evs1 winit = Some w1 -> w_upc w1 s = UCall k -> w_cpc w1 k = CDone i (COk f res) ->
+    wstep w1 (EUnsubAfterCall s false) = Some w1' -> wrun evs2 w1' = Some w2 ->
+    notif_straddle (evs1 ++ EUnsubAfterCall s false :: evs2) winit = false -> w_substraddle w2 = false ->
+    w_upc w2 s = UDone false /\ s_closed (w_sub w2 s) = false /\
+    notifs_to s (w_log w2) = notifs_to s (w_log w1) /\ owns_nothing (w_act w2) s /\ off_loop w2 s.
+Proof. exact ws_none_after_undecodable_unsubscribe. Qed.
+Print Assumptions C18_ws_none_after_undecodable_unsubscribe.
+
+(* non-vacuity of R1-R4: subscription 0 confirmed with server id 5 and notified once; Unsubscribe 0 sends
+   eth_unsubscribe (call 9, id 2); the server answers {"id":"000000002","result":"0x4d"} (a string: Some 77);
+   "decoded" is not enabled, "decoding failed" is: Unsubscribe returns the error, the channel is open, a later
+   notification for 5 reaches nobody (the one notification of before is all s ever got); guards false *)
+Example C18_ws_undecodable_unsubscribe_nonvacuous :
+  let evs1 := [ESubCfg 0; ESubInflight 0; ESubSend 0 true; EFrame (FReply (Some 1%N) false (Some 5%N));
+               ERAddActive; ESubWait 0; EFrame (FNotif (Some 5%N) 70%N); ERNotifySend;
+               EUnsubRemove 0 9; ECallReg 9; ECallSend 9 true;
+               EFrame (FReply (Some 2%N) false (Some 77%N)); ERDeliver; ECallRecv 9; ECallRemove 9] in
+  let evs2 := [EFrame (FNotif (Some 5%N) 71%N); EFrame (FNotif (Some 5%N) 72%N)] in
+  match wrun evs1 winit with
+  | Some w1 =>
+      match w_upc w1 0%nat, w_cpc w1 9%nat, wstep w1 (EUnsubAfterCall 0 true), wstep w1 (EUnsubAfterCall 0 false) with
+      | UCall 9%nat, CDone 2%N (COk 2%N (Some 77%N)), None, Some w1' =>
+          match wrun evs2 w1' with
+          | Some w2 =>
+              negb (notif_straddle (evs1 ++ EUnsubAfterCall 0 false :: evs2) winit) && negb (w_substraddle w2) &&
+              negb (s_closed (w_sub w2 0%nat)) && negb (w_panic w2) &&
+              match w_upc w2 0%nat, notifs_to 0 (w_log w2), w_log w2, w_rpc w2 with
+              | UDone false, [(5%N, 70%N)], LUnsubFail 0%nat :: _, RIdle => true
+              | _, _, _, _ => false
+              end
+          | None => false
+          end
+      | _, _, _, _ => false
+      end
+  | None => false
+  end = true.
+Proof. vm_compute. reflexivity. Qed.
+
+(* R5 (review 2). Completeness of reply pairing: a reply frame whose id is registered to call k IS handed to k - the
+      receive loop takes it (whatever its error flag and result), and its next step puts exactly that frame's
+      content into k's response channel and into the delivery log (when the channel is free; it has capacity 1
+      and is only ever written for a registered call), and the id is forgotten. *)
+Theorem C18_ws_reply_is_delivered :
+  forall evs w, wrun evs winit = Some w ->
+    forall i k e v, w_rpc w = RIdle -> alookup i (w_calls w) = Some k ->
+      exists w1 w2,
+        wstep w (EFrame (FReply (Some i) e v)) = Some w1 /\
+        w_rpc w1 = RDeliver k (RespFrame i e v) /\
+        wstep w1 ERDeliver = Some w2 /\
+        alookup i (w_calls w2) = None /\
+        (w_chan w k = None ->
+           w_chan w2 k = Some (RespFrame i e v) /\ w_log w2 = LDeliver k (RespFrame i e v) :: w_log w).
+Proof. exact ws_reply_is_delivered. Qed.
+Print Assumptions C18_ws_reply_is_delivered.
+
+(* R6 (review 2). ... and the CONTENT is the frame's: what CallRPC k holds or has returned as a result / as the
+      backend's error, what lies in k's channel, and what the receive loop is about to hand over, is the id, error
+      flag and result of a reply frame the server sent in THIS history (an [EFrame] of evs) with k's own id. *)
+Theorem C18_ws_call_outcome_from_history :
+  forall evs w, wrun evs winit = Some w ->
+    (forall k i f v, (w_cpc w k = CGot i (COk f v) \/ w_cpc w k = CDone i (COk f v)) ->
+        f = i /\ In (EFrame (FReply (Some i) false v)) evs) /\
+    (forall k i f v, (w_cpc w k = CGot i (CErrFrame f v) \/ w_cpc w k = CDone i (CErrFrame f v)) ->
+        f = i /\ In (EFrame (FReply (Some i) true v)) evs) /\
+    (forall k i e v, w_chan w k = Some (RespFrame i e v) -> In (EFrame (FReply (Some i) e v)) evs) /\
+    (forall k i e v, w_rpc w = RDeliver k (RespFrame i e v) -> In (EFrame (FReply (Some i) e v)) evs).
+Proof. exact ws_call_outcome_from_history. Qed.
+Print Assumptions C18_ws_call_outcome_from_history.
+
+(* R7 (review 3, completeness half). The ownership table does get filled and an owner does get its notification:
+      a confirmation (result x) of a pending request of a configured subscription s makes s the owner of x, and
+      the next notification for x is handed to s, carrying x as its current id.  (Pure step facts: any state.) *)
+Theorem C18_ws_confirmation_activates :
+  forall w i s x, w_rpc w = RIdle -> alookup i (w_pend w) = Some s -> nmem s (w_conf w) = true ->
+    exists w1 w2,
+      wstep w (EFrame (FReply (Some i) false (Some x))) = Some w1 /\
+      wstep w1 ERAddActive = Some w2 /\
+      w_rpc w2 = RIdle /\ spec_route (w_act w2) x = Some s /\ s_cur (w_sub w2 s) = Some x /\
+      (forall t, exists w3,
+         wstep w2 (EFrame (FNotif (Some x) t)) = Some w3 /\ w_rpc w3 = RNotify s x t /\
+         (s_closed (w_sub w s) = false ->
+            exists w4, wstep w3 ERNotifySend = Some w4 /\ w_log w4 = LNotify s x (Some x) t :: w_log w)).
+Proof. exact ws_confirmation_activates. Qed.
+Print Assumptions C18_ws_confirmation_activates.
+
+(* non-vacuity of R5-R7: two calls answered in reverse order, one with an error; each call's outcome is the frame
+   with its own id; a subscription confirmed and notified *)
+Example C18_ws_referee_nonvacuous :
+  let evs := [ECallReg 0; ECallSend 0 true; ECallReg 1; ECallSend 1 true;
+              EFrame (FReply (Some 2%N) true (Some 22%N)); ERDeliver; ECallRecv 1; ECallRemove 1;
+              EFrame (FReply (Some 1%N) false (Some 11%N)); ERDeliver; ECallRecv 0;
+              ESubCfg 0; ESubInflight 0; ESubSend 0 true] in
+  match wrun evs winit with
+  | Some w =>
+      match w_cpc w 0%nat, w_cpc w 1%nat, w_rpc w, alookup 3%N (w_pend w), nmem 0 (w_conf w) with
+      | CGot 1%N (COk 1%N (Some 11%N)), CDone 2%N (CErrFrame 2%N (Some 22%N)), RIdle, Some 0%nat, true =>
+          match wrun [EFrame (FReply (Some 3%N) false (Some 5%N)); ERAddActive; EFrame (FNotif (Some 5%N) 70%N); ERNotifySend] w with
+          | Some w4 => match w_log w4 with LNotify 0%nat 5%N (Some 5%N) 70%N :: _ => true | _ => false end
+          | None => false
+          end
+      | _, _, _, _, _ => false
+      end
+  | None => false
+  end = true.
+Proof. vm_compute. reflexivity. Qed.
+
+(* R8 (review 5b). buildRequest failing inside sendSubscribe is now part of the event alphabet, so "every history"
+      in 5/5b/6/6c-6f/7b includes it (the exact count 6c treats ERcBuildFail like a failed send: handleReconnect
+      gave up on everything still on its list; [no_rc_abort] excludes both - [rc_gives_up]).  Inside Subscribe()
+      (ESubBuildFail: after addConfiguredSub, BEFORE addInflightSub): no id is consumed, nothing becomes pending
+      or active, nothing is sent, the subscription does not stay configured, Subscribe returns (nil, err). *)
+Theorem C18_ws_subscribe_build_fail :
+  forall w s, w_spc w s = SNew ->
+    exists w1 w2 w3,
+      wstep w (ESubCfg s) = Some w1 /\ wstep w1 (ESubBuildFail s) = Some w2 /\ wstep w2 (ESubRemoveCfg s) = Some w3 /\
+      w_spc w3 s = SDone None /\ w_ctr w3 = w_ctr w /\ w_pend w3 = w_pend w /\ w_act w3 = w_act w /\
+      w_calls w3 = w_calls w /\ w_log w3 = w_log w /\ ~ In s (w_conf w3).
+Proof. exact ws_sub_build_fail_steps. Qed.
+Print Assumptions C18_ws_subscribe_build_fail.
+
+(* R9 (review 5b). Inside handleReconnect (ERcBuildFail s: the hook gives up BEFORE addInflightSub): like 5b for a
+      failing send, every call outstanding before the reconnect is already settled when the hook gives up and
+      after it; the hook is done (HIdle), no id was consumed, nothing became pending, nothing was sent. *)
+Theorem C18_ws_reconnect_calls_before_build_fail :
+  forall evs1 w1 w1' evs2 w2 s w3,
+    wrun evs1 winit = Some w1 -> wstep w1 EClear = Some w1' -> wrun evs2 w1' = Some w2 ->
+    wstep w2 (ERcBuildFail s) = Some w3 ->
+    (forall k i, waiting_id (w_cpc w1 k) = Some i -> call_settled w2 k i /\ call_settled w3 k i) /\
+    w_hpc w3 = HIdle /\ w_ctr w3 = w_ctr w2 /\ w_pend w3 = w_pend w2 /\ w_log w3 = w_log w2.
+Proof. exact ws_reconnect_calls_before_build_fail. Qed.
+Print Assumptions C18_ws_reconnect_calls_before_build_fail.
+
+(* non-vacuity of R8/R9 and of 6c on the new events: a Subscribe whose request cannot be built leaves no trace
+   (the next id is 1); subscription 1 confirmed, call 5 outstanding, reconnect, the hook cannot build the
+   re-request: call 5 holds the reconnect error, 0 requests for subscription 1, "dropped" = true, "in window" =
+   false - the combination (false, true) of 6d; the next reconnect re-requests it with the next id (3: none lost) *)
+Example C18_ws_build_fail_nonvacuous :
+  let evs := [ESubCfg 0; ESubBuildFail 0; ESubRemoveCfg 0;
+              ESubCfg 1; ESubInflight 1; ESubSend 1 true; EFrame (FReply (Some 1%N) false (Some 5%N));
+              ERAddActive; ESubWait 1; ECallReg 5; ECallSend 5 true;
+              EClear; ERcDeliver 5; ERcBuildFail 1] in
+  resub_obs evs 1 = Some (true, true, false, 0, false, true) /\
+  match wrun evs winit with
+  | Some w => is_reconn (w_chan w 5%nat) && (w_ctr w =? 2)%N && negb (nmem 0 (w_conf w)) &&
+              match w_spc w 0%nat, wrun [EClear; ERcInflight 1] w with
+              | SDone None, Some w' => match w_hpc w' with HSend 1%nat 3%N [] => true | _ => false end
+              | _, _ => false
+              end
+  | None => false
+  end = true.
+Proof. vm_compute. split; reflexivity. Qed.
